@@ -1,0 +1,30 @@
+//! Verification-only hooks (cargo feature `verif-hooks`); not part of the public API.
+
+use std::cell::Cell;
+
+thread_local! {
+    static CLOCK: Cell<Option<(i32, u32, u32, u32, u32, u32, u32)>> = Cell::new(None);
+    static READS: Cell<u64> = Cell::new(0);
+}
+
+/// Overrides (or, with `None`, restores) the local date and time seen by this thread:
+/// `(year, month, day, hour, minute, second, microsecond)`.
+pub fn set_clock(now: Option<(i32, u32, u32, u32, u32, u32, u32)>) {
+    CLOCK.with(|c| c.set(now));
+}
+
+/// Number of times the library read the clock on this thread.
+pub fn clock_reads() -> u64 {
+    READS.with(|r| r.get())
+}
+
+#[inline]
+pub(crate) fn now_or(real: chrono::NaiveDateTime) -> chrono::NaiveDateTime {
+    READS.with(|r| r.set(r.get() + 1));
+    match CLOCK.with(|c| c.get()) {
+        Some((y, mo, d, h, mi, s, us)) => chrono::NaiveDate::from_ymd_opt(y, mo, d)
+            .and_then(|date| date.and_hms_micro_opt(h, mi, s, us))
+            .unwrap_or(real),
+        None => real,
+    }
+}
